@@ -149,9 +149,15 @@ def txt_case(cid: str, d: Dict[Any, Any]) -> dict:
         text = info.text
         back = ServiceInfo('_http._tcp.local.', 'x._http._tcp.local.', 80, properties=bytes(text))
         props = [conv_item(k, v) for k, v in back.properties.items()]
-        return {'id': cid, 'kind': 'txt', 'items': items, 'out': 'ok', 'text': list(text), 'props': props}
+        # ... and what the description itself hands back for the dictionary it was given ("as bytes")
+        own = info.properties
+        oprops = [conv_item(k, v) for k, v in own.items()]
+        obytes = all(isinstance(k, bytes) and (v is None or isinstance(v, bytes)) for k, v in own.items())
+        return {'id': cid, 'kind': 'txt', 'items': items, 'out': 'ok', 'text': list(text), 'props': props, 'oprops': oprops,
+                'obytes': obytes}
     except Exception as e:  # noqa: BLE001
-        return {'id': cid, 'kind': 'txt', 'items': items, 'out': 'exc:' + type(e).__name__, 'text': [], 'props': []}
+        return {'id': cid, 'kind': 'txt', 'items': items, 'out': 'exc:' + type(e).__name__, 'text': [], 'props': [], 'oprops': [],
+                'obytes': True}
 
 
 def run(ctx: Ctx) -> None:
